@@ -64,10 +64,10 @@ MsApplyTweak(kctx, tweak32, xonly) ==
 
 \* the discrete logarithm of the (tweaked) aggregate key, from the signers' secrets:  Q = q*G with
 \* q = gacc * sum(a_i d_i) + tacc ... only the generator of test inputs uses it (to aim at Q' = infinity)
-MsAggSecret(kctx, pks, ds) ==
-  LET RECURSIVE S(_)
-      S(i) == IF i > Len(pks) THEN Zero ELSE SAdd(SMul(MsCoeffOf(kctx, pks[i]), ds[i]), S(i + 1))
-  IN  SAdd(SMul(kctx.gacc, S(1)), kctx.tacc)
+RECURSIVE MsCoeffSecretSum(_, _, _, _)
+MsCoeffSecretSum(kctx, pks, ds, i) ==
+  IF i > Len(pks) THEN Zero ELSE SAdd(SMul(MsCoeffOf(kctx, pks[i]), ds[i]), MsCoeffSecretSum(kctx, pks, ds, i + 1))
+MsAggSecret(kctx, pks, ds) == SAdd(SMul(kctx.gacc, MsCoeffSecretSum(kctx, pks, ds, 1)), kctx.tacc)
 
 -----------------------------------------------------------------------------
 \* Nonce generation.  Optional arguments: << >> = absent.
